@@ -169,6 +169,9 @@ func sessionPools(r *Rand, npools int) ([][]sessInput, int) {
 	lmB, lmC := lm, lm
 	lmB.InputPath, lmC.InputPath = "maps/other dir/b.pory", `C:\data\c.pory`
 	pools = append(pools, []sessInput{{psSrc, lm}, {psSrc, lmB}, {constUse, lmC}, {constUse, lmB}})
+	lmD := lm
+	lmD.InputPath = `D:\other\d.pory`
+	pools = append(pools, []sessInput{{psSrc, lmC}, {psSrc, lmD}, {constUse, lmD}, {constUse, lmC}})
 	fc := FileCfg{MaxTops: 4, Inline: true, AutoInline: true, MapScripts: true, Raw: true, Formats: true,
 		Ctl: GenCfg{MaxDepth: 3, MaxStmts: 3, MaxLeaves: 3, Auto: true, Switches: true, Gotos: true}}
 	nHand := len(pools)
@@ -384,8 +387,9 @@ func checkC17(c *Ctx) {
 	// (c) text statements and scripts using format() in every parameter form: each text block equals the
 	// block of the statement compiled alone, whatever precedes it
 	fmtForms := []string{``, `, "1_latin_frlg"`, `, 100`, `, 208, "1_latin_frlg"`, `, "1_latin_rse", 150`, `, fontId="1_latin_frlg"`, `, numLines=3`,
-		`, 120, cursorOverlapWidth=20`, `, maxLineLength=90, fontId="1_latin_frlg"`}
-	fmtTexts := []string{"Please take good care of this rare POKeMON for me okay thanks a lot", "aaaaa aaaaa aaaaa aaaaa aaaaa aaaa\\pbbb ccc ddd eee",
+		`, 120, cursorOverlapWidth=20`, `, maxLineLength=90, fontId="1_latin_frlg"`, `, cursorOverlapWidth=40`, `, numLines=1`, `, 120`, `, 120, numLines=4`}
+	fmtTexts := []string{"Please take good care of this rare POKeMON for me okay thanks a lot",
+		"This is a rather long speech that needs a good many lines of the box to be shown in full and therefore scrolls more than once before the player can go on with the game at last", "aaaaa aaaaa aaaaa aaaaa aaaaa aaaa\\pbbb ccc ddd eee",
 		"one two three four five six seven eight nine ten eleven twelve"}
 	nfmt := 60
 	if !c.Quick() {
